@@ -7,7 +7,16 @@ open Vutil
 
 let str = function None -> "0" | Some r -> hex_of_bytes r
 
+(* the specification and the model hash the same node encodings: memoise BLAKE2b per case *)
+let memo : (string, byte list) Hashtbl.t = Hashtbl.create 4096
+let blake2b_256 (l : byte list) : byte list =
+  let k = string_of_bytes l in
+  match Hashtbl.find_opt memo k with
+  | Some r -> r
+  | None -> let r = Model.blake2b_256 l in Hashtbl.add memo k r; r
+
 let check inp obs =
+  Hashtbl.reset memo;
   let f = split_ws inp in
   let (ordered, version, data, v1) = (match f with
     | ["root"; v; d] -> (false, n_of_hex v, bytes_of_hex d, false)
